@@ -30,8 +30,10 @@ import (
 	"encoding/json"
 	"fmt"
 	"os"
+	"os/exec"
 	"path/filepath"
 	"runtime"
+	"runtime/debug"
 	"sort"
 	"strconv"
 	"strings"
@@ -1118,6 +1120,43 @@ func c15RunI(f []string, payload string) string {
 	return r
 }
 
+// c15RunY: a program for which attaching the debugger is known to kill the PROCESS (stack overflow in
+// the scope snapshot of a self-containing value): run the debugged case in a child process.
+func c15RunY(progHex string) string {
+	cmd := exec.Command(os.Args[0], "C15", "-one", "D 1 00 - - poll 1 - "+progHex)
+	cmd.Env = append(os.Environ(), "C15_CHILD=1")
+	var out strings.Builder
+	cmd.Stdout = &out
+	done := make(chan error, 1)
+	if err := cmd.Start(); err != nil {
+		return "cannot-start-child"
+	}
+	go func() { done <- cmd.Wait() }()
+	select {
+	case err := <-done:
+		if err == nil {
+			if l := strings.TrimSpace(out.String()); strings.HasPrefix(l, "same=") {
+				return l
+			}
+		}
+	case <-time.After(60 * time.Second):
+		cmd.Process.Kill()
+	}
+	CountRun("Y.died")
+	return "DIES-with-debugger-attached"
+}
+
+// c15KnownListed: is the finding id listed in known_findings.txt of the verification tree? (the check
+// runs the harness in <verif>/.work/<dir>/)
+func c15KnownListed(id string) bool {
+	for _, p := range []string{"../../known_findings.txt", "known_findings.txt"} {
+		if b, err := os.ReadFile(p); err == nil {
+			return strings.Contains(string(b), "id="+id+" ")
+		}
+	}
+	return false
+}
+
 // c15SinkProgram: a sink with the given body lines, `events` events of its kind.
 func c15SinkProgram(body []string, events int) string {
 	lines := []string{"func h(a) {", "    return a * 2", "}", "sink s1", "    kindmatch [ \"ev.a\" ],", "    {"}
@@ -1398,7 +1437,7 @@ func (p *c15Gen) block(d int, n int) {
 }
 
 func (p *c15Gen) stmt(d int) {
-	k := p.r.Intn(17)
+	k := p.r.Intn(18)
 	if d <= 0 && k >= 5 && k <= 8 {
 		k = 0
 	}
@@ -1504,6 +1543,13 @@ func (p *c15Gen) stmt(d int) {
 			p.vars = append(p.vars, v)
 		} else {
 			p.emit("log(\"nf\")")
+		}
+	case 17:
+		// try and except on ONE line around a call (the except block is on the line of the call)
+		if len(p.funcs) > 0 {
+			p.emit("try { " + p.funcs[p.r.Intn(len(p.funcs))] + "(" + p.expr(1) + ") } except { log(\"c1\") }")
+		} else {
+			p.emit("try { raise(\"E7\") } except { log(\"c1\") }")
 		}
 	case 13:
 		// lines holding a single token-bearing node
@@ -1737,6 +1783,15 @@ var c15Directed = [][3]string{
 	{"func f(a) {\n    for i in range(1, 3) {\n        b := i\n        c := b\n    }\n    return a\n}\nx := f(1)\nx", "s8,s3", "O,U,U,U,U"},
 }
 
+// directed cases with breakOnError on (the default of NewECALDebugger)
+var c15DirectedBoe = [][3]string{
+	// an error passing outer calls must not move the thread's position: coming back to line 7 (the except
+	// block on the line of the try) from line 2 suspends again
+	{"func g() {\n    raise(\"x\")\n}\nfunc f() {\n    g()\n}\ntry { f() } except { log(\"caught\") }\nlog(\"end\")", "s7", "R,R,R,R"},
+	{"func g() {\n    raise(\"x\")\n}\nfunc f() {\n    g()\n}\ntry { f() } except { log(\"caught\") }\nlog(\"end\")", "s7,s5", "I,O,R,U,R"},
+	{"func f(a) {\n    return 1 / a\n}\ntry { f(0) } except { log(\"c\") } finally { log(\"f\") }\ntry { f(1) } except { log(\"c\") }\n7", "s4,s5", "R,R,R,R,R"},
+}
+
 func init() {
 	register("C15", &Prop{
 		Timeout:          90 * time.Second,
@@ -1747,10 +1802,12 @@ func init() {
 			}
 			if len(args) == 1 && args[0] == "pin" {
 				fmt.Println("package main\n\n// GENERATED ONCE by `harness C15 -tool pin` on a tree on which the check passed, then committed:\n// literal visit traces of the directed programs (the expectation of a directed case must not be\n// recomputed from the tree under test).\nvar c15Pinned = map[string]string{")
-				for _, d := range c15Directed {
-					if _, done := c15Pinned[d[0]]; done && false {
+				seenProg := map[string]bool{}
+				for _, d := range append(append([][3]string{}, c15Directed...), c15DirectedBoe...) {
+					if seenProg[d[0]] {
 						continue
 					}
+					seenProg[d[0]] = true
 					_, _, trace := c15Plain(d[0])
 					fmt.Printf("\t%q: %q,\n", d[0], c15TraceStr(trace))
 				}
@@ -1761,6 +1818,9 @@ func init() {
 			return 2
 		},
 		Setup: func() {
+			if os.Getenv("C15_CHILD") != "" {
+				debug.SetMaxStack(32 << 20) // die quickly on the known stack overflow
+			}
 			registerX("attach", func(args []interface{}) (interface{}, error) {
 				if h := c15AttachHook; h != nil {
 					h()
@@ -2054,6 +2114,23 @@ func init() {
 					emitL(lib+attLib, "q0 := "+[]string{"att", "att2"}[i%2]+"(1)\n"+main, g.R, "", "")
 				}
 			}
+			// known finding debugger-snapshot-cyclic-value (emitted once the id is listed, so that the check
+			// stays green until then)
+			if c15KnownListed("debugger-snapshot-cyclic-value") {
+				g.Count("Y")
+				g.Emit("Y " + hx("a := {\"k\": 1}\na.self := a\nfunc f() {\n    return 1\n}\nx := f()\nx"))
+			} else {
+				g.Count("Y.not-emitted-id-not-listed-yet")
+			}
+			for _, d := range c15DirectedBoe {
+				_, _, trace := c15Plain(d[0])
+				if lit, ok := c15Pinned[d[0]]; ok {
+					trace = strings.Split(lit, ",")
+					g.Count("D.directed.pinned")
+				}
+				g.Count("D.directed")
+				g.Emit(fmt.Sprintf("D 1 01 %s %s poll 1 %s %s", d[1], d[2], c15TraceStr(trace), hx(d[0])))
+			}
 			for i, src := range c15Corpus {
 				emitD(src, NewRand(uint64(1000+i)), true)
 			}
@@ -2074,6 +2151,8 @@ func init() {
 				return c15RunZ(f[1:], payload)
 			case f[0] == "S" && len(f) == 7:
 				return c15RunS(f[1:], payload)
+			case f[0] == "Y" && len(f) == 2:
+				return c15RunY(f[1])
 			case f[0] == "I" && len(f) == 7:
 				return c15RunI(f[1:], payload)
 			}
